@@ -31,6 +31,7 @@ func main() {
 	workers := flag.Int("workers", 8, "connections exercised in parallel")
 	chunkStep := flag.Int("chunkstep", 1, "stride of the second cut in the exhaustive two-cut chunk schedules (1 = every pair of offsets)")
 	nDepth := flag.Int("depth", 72, "long-lived unit cases: k messages read under a MaxDepth (model-compared)")
+	nDiscard := flag.Int("discard", 240, "unit cases with discarded bodies (model-compared)")
 	llSeq := flag.Int("llseq", 300, "sequential calls per long-lived connection")
 	llConc := flag.Int("llconc", 208, "concurrent calls (batches of 16) per long-lived connection")
 	dl := flag.Int("deadline", 8, "seconds before a run counts as hung")
@@ -39,10 +40,11 @@ func main() {
 	deadline = time.Duration(*dl) * time.Second
 	seed := vh.SeedFromEnv()
 	r := vh.NewRng(seed)
-	sum := vh.NewSummary("unit: codec (GoRpc x 5 formats, MsgpackSpecRpc) x ReaderBufferSize x WriterBufferSize in {0,1,7,64,4096} x request/response x 1..4 frames x chunk schedule (coalesced, single bytes, random, one frame plus the head of the next, mixed) x whole/cut stream; non-trivial = more than one frame, a fragmenting schedule or a cut; distinct by all of these. chunk: three short frames per codec x rbs in {0,1,64} x direction under every schedule [a, b, rest] (direct oracle; distinct by codec, rbs, direction). depth: 20..80 (default MaxDepth: >1030) messages written back to back and read by one codec under MaxDepth in {default,2,3,4,5,8}, first failing message compared with the model (distinct by codec, MaxDepth, direction, limit reached). longlived: one real net/rpc connection per codec x transport x rbs with MaxDepth 8 (and the default with 1100 calls), several hundred sequential then concurrent calls, every reply and server error matched. rpc: the same codecs (plus GoRpc/binc with AsSymbols=1, whose symbol tables span frames) and buffer grid x transport (net.Pipe, fragmenting/coalescing pipe in 4 modes, TCP loopback, the documented bufio-wrapped connection) x N in 1..64 concurrent calls (Echo struct, Add, Str, Fail) + Close protocol; distinct by (codec, transport, rbs, wbs, N). close: Close unblocks a pending header read, per codec x transport")
+	sum := vh.NewSummary("unit: codec (GoRpc x 5 formats, MsgpackSpecRpc) x ReaderBufferSize x WriterBufferSize in {0,1,7,64,4096} x request/response x 1..4 frames x chunk schedule (coalesced, single bytes, random, one frame plus the head of the next, mixed) x whole/cut stream; non-trivial = more than one frame, a fragmenting schedule or a cut; distinct by all of these. chunk: three short frames per codec x rbs in {0,1,64} x direction under every schedule [a, b, rest] (direct oracle; distinct by codec, rbs, direction). depth: 20..80 (default MaxDepth: >1030) messages written back to back and read by one codec under MaxDepth in {default,2,3,4,5,8}, first failing message compared with the model (distinct by codec, MaxDepth, direction, limit reached). discard: 3..8 messages of which some have their body read with a nil destination (unknown method/service, error reply, stale reply) and shapes that are no interface{} value (maps keyed by arrays/structs), first failing message vs the model, typed bodies re-checked after the last message (distinct by codec, rbs, direction, counts). All decoded strings carry json escapes and are re-checked after later messages were read. longlived: one real net/rpc connection per codec x transport x rbs with MaxDepth 8 (and the default with 1100 calls), several hundred sequential then concurrent calls, every reply and server error matched. rpc: the same codecs (plus GoRpc/binc with AsSymbols=1, whose symbol tables span frames) and buffer grid x transport (net.Pipe, fragmenting/coalescing pipe in 4 modes, TCP loopback, the documented bufio-wrapped connection) x N in 1..64 concurrent calls (Echo struct, Add, Str, Fail) + Close protocol; distinct by (codec, transport, rbs, wbs, N). close: Close unblocks a pending header read, per codec x transport")
 	unitStream(r.Fork(), *nUnit, *cases, sum)
 	chunkStream(r.Fork(), *chunkStep, sum)
 	depthUnit(r.Fork(), *nDepth, *cases, sum)
+	discardUnit(r.Fork(), *nDiscard, *cases, sum)
 
 	// ---- long-lived connections ----
 	{
